@@ -31,6 +31,8 @@ def run(cx):
     nontriv = set()
     # ---- G: enumerated closure scenarios
     asts = langlib.gen_family(cx, "closures", maxd)
+    # closures over block-scoped variables of one activation, multi-assignment to captured variables
+    asts += langlib.gen_family(cx, "blockclosures", 0)
     direct, fromgo = [], []
     for i, a in enumerate(asts):
         row = {"id": i, "ast": a, "hoist": []}
